@@ -9,7 +9,7 @@
 // The native driver pplv_c13 replays the journal on PPLV.Value.Spec and decides every equality of
 // values with the verified K1 / K2 procedures.
 //
-//   c13_values --seed S --first A --last B --len L [--fam all|lin|cpoly|nnc|bds|oct|box|grid|pps|prod] [--batch N]
+//   c13_values --seed S --first A --last B --len L [--fam all|lin|cpoly|nnc|bds|oct|box|grid|pps|prod|det_cpoly|det_grid] [--batch N]
 //
 // journal grammar (one event per line):
 //   hist <id> <family> <dim>
@@ -27,6 +27,45 @@
 #include <memory>
 #include <utility>
 #include <algorithm>
+
+// ---- the executable's own operator new / delete (libppl.so binds to them too) -----------------
+// Every block carries a header; a block deleted twice, or a pointer that was never handed out, is
+// counted as a fault.  While `g_quarantine' is on (the Determinate histories) a deleted block is
+// poisoned and never given back, so that addresses identify blocks for the whole history and a use
+// after free reads 0xDD bytes deterministically.
+namespace track {
+  static const unsigned long LIVE = 0xA110C8EDu, DEAD = 0xDEADB10Cu;
+  struct Hdr { unsigned long magic; unsigned long size; };
+  static long g_live = 0, g_faults = 0;
+  static bool g_quarantine = false;
+  static unsigned long g_class = 0;      // a block size that is counted separately
+  static long g_class_live = 0;
+  inline void* get(std::size_t n) {
+    Hdr* h = (Hdr*) std::malloc(sizeof(Hdr) + (n ? n : 1));
+    if (!h) throw std::bad_alloc();
+    h->magic = LIVE; h->size = n; ++g_live; if (n == g_class) ++g_class_live;
+    return h + 1;
+  }
+  inline void put(void* p) {
+    if (!p) return;
+    Hdr* h = ((Hdr*) p) - 1;
+    if (h->magic != LIVE) { ++g_faults; return; }          // double delete / foreign pointer
+    h->magic = DEAD; --g_live; if (h->size == g_class) --g_class_live;
+    if (g_quarantine) std::memset(p, 0xDD, h->size); else std::free(h);
+  }
+  // is the block that contains address q (payload start p) still live?
+  inline bool live_block(const void* p) { const Hdr* h = ((const Hdr*) p) - 1; return h->magic == LIVE; }
+}
+void* operator new(std::size_t n) { return track::get(n); }
+void* operator new[](std::size_t n) { return track::get(n); }
+void* operator new(std::size_t n, const std::nothrow_t&) noexcept { try { return track::get(n); } catch (...) { return 0; } }
+void* operator new[](std::size_t n, const std::nothrow_t&) noexcept { try { return track::get(n); } catch (...) { return 0; } }
+void operator delete(void* p) noexcept { track::put(p); }
+void operator delete[](void* p) noexcept { track::put(p); }
+void operator delete(void* p, std::size_t) noexcept { track::put(p); }
+void operator delete[](void* p, std::size_t) noexcept { track::put(p); }
+void operator delete(void* p, const std::nothrow_t&) noexcept { track::put(p); }
+void operator delete[](void* p, const std::nothrow_t&) noexcept { track::put(p); }
 
 using namespace Parma_Polyhedra_Library;
 using pplv::Rng;
@@ -1019,9 +1058,140 @@ struct LinHist : Exec {
   void run(long len) { init(); for (long i = 0; i < len; ++i) step(); }
 };
 
+
 // =========================================================================================
-static const char* FAMS[] = { "lin", "cpoly", "nnc", "bds", "oct", "box", "grid", "pps", "prod" };
-static const int NFAM = 9;
+// Determinate<PSET> itself, in lock step with the Lean heap machine PPLV.Value.Cow
+// =========================================================================================
+//   dstep construct h | copy h y | assign h y | destroy h | swap h y | mutate h name | binop h y name
+//   res <value>                   value given to construct / result of f, g computed on deep copies of the point sets
+//   dq <name> h y <0|1>           const queries, judged against the model's values
+//   dobs h dead | dobs h <address of the const pointset()> <value>
+//   dalloc <faults>               double deletes / deletes of foreign pointers seen by operator delete so far
+//   dfinal <Rep-sized live blocks> <same at the start> <all live blocks> <same at the start>
+template <class PSET> struct DetTr;
+template <> struct DetTr<C_Polyhedron> { static const Shape sh = SH_POLY; static const bool grid = false; };
+template <> struct DetTr<Grid> { static const Shape sh = SH_EQ; static const bool grid = true; };
+
+template <class PSET> struct DetHist {
+  typedef Determinate<PSET> Det;
+  struct RepLike { unsigned long references; PSET pset; };      // same layout as the private Determinate::Rep
+  static const int N = 6;
+  Det* X[N];
+  Rng r;
+  dimension_type n;
+  static const bool grid = DetTr<PSET>::grid;
+  DetHist(uint64_t seed, dimension_type n_) : r(seed), n(n_) { for (int i = 0; i < N; ++i) X[i] = 0; g_semantic_sys = true; g_dim = n_; }
+
+  static const PSET& cps(const Det& d) { return d.pointset(); }       // the const accessor: no mutate()
+  unsigned long addr(int h) { return (unsigned long) (const void*) &cps(*X[h]); }
+  void observe() {
+    for (int h = 0; h < N; ++h) {
+      if (!X[h]) { J.line("dobs " + std::to_string(h) + " dead"); continue; }
+      OS o; o << "dobs " << h << " " << addr(h) << val_str(cps(*X[h])); J.line(o.str());
+    }
+    J.line("dalloc " + std::to_string(track::g_faults));
+  }
+  PSET* rnd_pset() { return Tr<PSET>::make(r, n); }
+  int pick_live() { int c[N], k = 0; for (int i = 0; i < N; ++i) if (X[i]) c[k++] = i; return k ? c[r.below(k)] : -1; }
+  int pick_dead() { int c[N], k = 0; for (int i = 0; i < N; ++i) if (!X[i]) c[k++] = i; return k ? c[r.below(k)] : -1; }
+  // a live handle (other than h if possible) that shares h's representation, or -1
+  int pick_sharing(int h) { int c[N], k = 0; for (int i = 0; i < N; ++i) if (X[i] && i != h && addr(i) == addr(h)) c[k++] = i; return k ? c[r.below(k)] : -1; }
+  int pick_partner(int h) {
+    unsigned k = r.below(10);
+    if (k < 3) return h;                                      // d = d, swap(d, d), d.op(d)
+    if (k < 6) { int s = pick_sharing(h); if (s >= 0) return s; }
+    return pick_live();
+  }
+
+  void construct(int h) {
+    std::unique_ptr<PSET> p(rnd_pset());
+    unsigned k = r.below(4);
+    J.line("dstep construct " + std::to_string(h));
+    J.line("res" + val_str(*p));
+    if (k == 0 && !grid) { Constraint_System cs(p->constraints()); X[h] = new Det(cs); }
+    else if (k == 0 && grid) { Congruence_System cgs(p->congruences()); if (p->is_empty()) X[h] = new Det(*p); else X[h] = new Det(cgs); }
+    else X[h] = new Det(*p);
+    observe();
+  }
+  template <class F> void mutate(int h, const char* nm, F f) {
+    J.line(std::string("dstep mutate ") + std::to_string(h) + " " + nm);
+    { PSET t(cps(*X[h])); try { f(t); } catch (...) {} J.line("res" + val_str(t)); }
+    try { f(X[h]->pointset()); } catch (...) { J.line("exc " + pplv::exc_class() + " -"); }
+    observe();
+  }
+  template <class G, class R> void binop(int h, int y, const char* nm, G g, R real) {
+    J.line(std::string("dstep binop ") + std::to_string(h) + " " + std::to_string(y) + " " + nm);
+    { PSET t(cps(*X[h])), u(cps(*X[y])); try { g(t, u); } catch (...) {} J.line("res" + val_str(t)); }
+    try { real(*X[h], *X[y]); } catch (...) { J.line("exc " + pplv::exc_class() + " -"); }
+    observe();
+  }
+  void fix_dim(int h) {
+    if (cps(*X[h]).space_dimension() > n)
+      mutate(h, "remove_space_dimensions(higher)", [&](PSET& p) { Variables_Set vs; for (dimension_type k = n; k < p.space_dimension(); ++k) vs.insert(Variable(k)); p.remove_space_dimensions(vs); });
+  }
+
+  void step() {
+    int h = pick_live();
+    unsigned k = r.below(100);
+    if (h < 0 || (k < 14 && pick_dead() >= 0)) { int d = pick_dead(); if (d >= 0) { construct(d); return; } }
+    if (k < 30 && pick_dead() >= 0) { int d = pick_dead();
+      J.line("dstep copy " + std::to_string(d) + " " + std::to_string(h)); X[d] = new Det(*X[h]); observe(); return; }
+    if (k < 48) { int y = pick_partner(h);
+      J.line("dstep assign " + std::to_string(h) + " " + std::to_string(y)); *X[h] = *X[y]; observe(); return; }
+    if (k < 58) { int y = pick_partner(h);
+      J.line("dstep swap " + std::to_string(h) + " " + std::to_string(y));
+      if (r.chance(1, 2)) X[h]->m_swap(*X[y]); else { using std::swap; swap(*X[h], *X[y]); }
+      observe(); return; }
+    if (k < 66) { J.line("dstep destroy " + std::to_string(h)); delete X[h]; X[h] = 0; observe(); return; }
+    if (k < 80) {
+      unsigned j = r.below(5);
+      dimension_type v = r.below(n);
+      if (j == 0) mutate(h, "pointset()", [](PSET&) {});        // the non-const accessor alone: clones iff shared
+      else if (j == 1) { Constraint c = shape_con(r, n, DetTr<PSET>::sh); mutate(h, "pointset().refine_with_constraint", [&](PSET& p) { p.refine_with_constraint(c); }); }
+      else if (j == 2) { LE e = rnd_expr(r, n, 2, false); mutate(h, "pointset().affine_image", [&](PSET& p) { p.affine_image(Variable(v), e); }); }
+      else if (j == 3) { Congruence cg = rnd_cg(r, n, !grid); mutate(h, "pointset().refine_with_congruence", [&](PSET& p) { p.refine_with_congruence(cg); }); }
+      else mutate(h, "pointset().unconstrain", [&](PSET& p) { p.unconstrain(Variable(v)); });
+      return; }
+    if (k < 94) {
+      int y = pick_partner(h);
+      unsigned j = r.below(6);
+      if (j == 0) binop(h, y, "upper_bound_assign", [](PSET& a, const PSET& b) { a.upper_bound_assign(b); }, [](Det& a, const Det& b) { a.upper_bound_assign(b); });
+      else if (j == 1) binop(h, y, "meet_assign", [](PSET& a, const PSET& b) { a.intersection_assign(b); }, [](Det& a, const Det& b) { a.meet_assign(b); });
+      else if (j == 2) binop(h, y, "weakening_assign", [](PSET& a, const PSET& b) { a.difference_assign(b); }, [](Det& a, const Det& b) { a.weakening_assign(b); });
+      else if (j == 3) binop(h, y, "lift_op_assign(time_elapse_assign)", [](PSET& a, const PSET& b) { a.time_elapse_assign(b); },
+                             [](Det& a, const Det& b) { Det::lift_op_assign([](PSET& p, const PSET& q) { p.time_elapse_assign(q); })(a, b); });
+      else if (j == 4 && n <= 2) { binop(h, y, "concatenate_assign", [](PSET& a, const PSET& b) { a.concatenate_assign(b); }, [](Det& a, const Det& b) { a.concatenate_assign(b); }); fix_dim(h); }
+      else binop(h, y, "upper_bound_assign", [](PSET& a, const PSET& b) { a.upper_bound_assign(b); }, [](Det& a, const Det& b) { a.upper_bound_assign(b); });
+      return; }
+    { int y = pick_partner(h); unsigned j = r.below(6); bool b = false; const char* nm = "";
+      const Det& a = *X[h]; const Det& c = *X[y];
+      switch (j) { case 0: nm = "definitely_entails"; b = a.definitely_entails(c); break;
+        case 1: nm = "is_definitely_equivalent_to"; b = a.is_definitely_equivalent_to(c); break;
+        case 2: nm = "operator=="; b = (a == c); break;
+        case 3: nm = "operator!="; b = (a != c); break;
+        case 4: nm = "is_top"; b = a.is_top(); break;
+        default: nm = "is_bottom"; b = a.is_bottom(); break; }
+      J.line(std::string("dq ") + nm + " " + std::to_string(h) + " " + std::to_string(y) + " " + (b ? "1" : "0"));
+      observe(); }
+  }
+
+  void run(long len) {
+    // warm up the library's lazily allocated scratch objects, then fix the baseline
+    { std::unique_ptr<PSET> p(rnd_pset()), q(rnd_pset()); Det a(*p), b(*q), c(a); c.upper_bound_assign(b); c.meet_assign(a); (void) val_str(cps(c)); c = b; }
+    track::g_class = sizeof(RepLike); track::g_class_live = 0;
+    long base_all = track::g_live, base_rep = 0;
+    track::g_quarantine = true;
+    for (long i = 0; i < len; ++i) step();
+    // destruction in arbitrary order
+    for (;;) { int h = pick_live(); if (h < 0) break; J.line("dstep destroy " + std::to_string(h)); delete X[h]; X[h] = 0; observe(); }
+    { OS o; o << "dfinal " << track::g_class_live << " " << base_rep << " " << track::g_live << " " << base_all; J.line(o.str()); }
+    track::g_quarantine = false; track::g_class = 0;
+  }
+};
+
+// =========================================================================================
+static const char* FAMS[] = { "lin", "cpoly", "nnc", "bds", "oct", "box", "grid", "pps", "prod", "det_cpoly", "det_grid" };
+static const int NFAM = 11;
 
 template <class D> static void run_dom(uint64_t seed, dimension_type n, long len) { DomHist<D> H(seed, n); H.run(len); }
 
@@ -1052,7 +1222,9 @@ int main(int argc, char** argv) {
       case 5: run_dom<Rational_Box>(s, n, len); break;
       case 6: run_dom<Grid>(s, n, len); break;
       case 7: run_dom<PPS>(s, n, len); break;
-      default: run_dom<PROD>(s, n, len); break;
+      case 8: run_dom<PROD>(s, n, len); break;
+      case 9: { DetHist<C_Polyhedron> H(s, n); H.run(len * 3); break; }
+      default: { DetHist<Grid> H(s, n); H.run(len * 3); break; }
       }
       J.line("end");
     }
